@@ -253,6 +253,8 @@ static void child_main(const Case& c) {
   int r0 = call_api(A, std::vector<std::string>{"loaddb", c.db}, exc);
   fprintf(R, "L0 %d %s\n", r0, exc.c_str()); fflush(R);
   if (r0 != 0) { fprintf(R, "DONE\n"); fflush(R); return; }
+  // LoadDatabase resets the per-user-number selected-output switches (UnLoadDatabase): set the case's switches again for the judged calls
+  for (auto& s : c.sw) apply_sw(A, s);
   for (size_t k = 0; k < c.pre.size(); k++) {
     A->begin_call();
     int r = call_api(A, c.pre[k], exc);
